@@ -682,9 +682,16 @@ Lemma initial_revision_shape : forall fc other uc,
 Proof. intros; cbn; repeat split. Qed.
 
 (** * every entry point together *)
-Lemma run_no_panic : forall c, run c <> Panic.
+(* the handler-level entries read the renter payout of the host's own stored revision *)
+Definition stored_ok (c : call) : Prop :=
+  match c with
+  | HPayByContract cur _ _ _ => (1 <= length (rvalid cur))%nat
+  | _ => True
+  end.
+
+Lemma run_no_panic : forall c, stored_ok c -> run c <> Panic.
 Proof.
-  intros [cur rv|cur rv p k|cur rv s k|cur rv p|cur fin p|cur n vs ms|cur vs|fc o u]; cbn [run].
+  intros [cur rv|cur rv p k|cur rv s k|cur rv p|cur fin p|cur n vs ms|cur vs|fc o u|cur n vs ms cost|cur n vs ms] St; cbn [run].
   - pose proof (validate_std_no_panic cur rv). destruct (validate_std cur rv); cbn [bind]; congruence.
   - pose proof (validate_revision_no_panic cur rv p k). destruct (validate_revision cur rv p k); cbn [bind]; congruence.
   - pose proof (validate_program_no_panic cur rv s k). destruct (validate_program cur rv s k); cbn [bind]; congruence.
@@ -693,6 +700,38 @@ Proof.
   - pose proof (revise_no_panic cur n vs ms). destruct (revise cur n vs ms); cbn [bind]; congruence.
   - pose proof (clearing_revision_no_panic cur vs). destruct (clearing_revision cur vs); cbn [bind]; congruence.
   - discriminate.
+  - unfold bad. destruct (rnum cur =? max64); [discriminate|].
+    pose proof (revise_no_panic cur n vs ms). destruct (revise cur n vs ms) as [r| |]; cbn [bind]; try congruence.
+    pose proof (validate_revision_no_panic cur r cost 0).
+    destruct (validate_revision cur r cost 0); cbn [bind]; congruence.
+  - cbn [stored_ok] in St.
+    pose proof (revise_no_panic cur n vs ms). destruct (revise cur n vs ms) as [r| |] eqn:Er; cbn [bind]; try congruence.
+    apply revise_sound in Er as (_ & _ & _ & _ & _ & (_ & _ & _ & _ & _ & Ha) & _).
+    assert (Lr : length (rvalid r) = length (rvalid cur)).
+    { rewrite <- (map_length oaddr (rvalid r)), Ha, map_length. reflexivity. }
+    unfold valid_renter.
+    destruct (nth_out_lt (rvalid cur) 0) as [o1 E1]; [lia|].
+    destruct (nth_out_lt (rvalid r) 0) as [o2 E2]; [lia|].
+    rewrite E1, E2; cbn [bind].
+    destruct (csub_u (oval o1) (oval o2)) as [amt []]; unfold bad; [discriminate|].
+    pose proof (validate_payment_no_panic cur r amt).
+    destruct (validate_payment cur r amt); cbn [bind]; congruence.
+Qed.
+
+(* what a renter can get counter-signed through RPCSectorRoots/RPCRead/RPCWrite: the candidate is
+   Revise(current, renter values) and must pass ValidateRevision *)
+Lemma revise_then_validate_safe : forall cur num vs ms r payment collateral transfer burn,
+  wf cur -> inrange cur ->
+  revise cur num vs ms = Ok r ->
+  validate_revision cur r payment collateral = Ok (transfer, burn) ->
+  rnum r = num /\ map oval (rvalid r) = vs /\ map oval (rmissed r) = ms /\
+  rsize r = rsize cur /\ rroot r = rroot cur /\ rother r = rother cur /\
+  safe_revision cur r payment collateral /\ wf r.
+Proof.
+  intros cur num vs ms r payment collateral transfer burn W R Hr Hv.
+  apply revise_sound in Hr as (_ & _ & ? & ? & ? & (? & _) & _ & ? & ?).
+  apply validate_revision_safe in Hv as (Sf & _ & _ & _ & _ & _ & W' & _); try assumption.
+  repeat (split; [assumption|]). exact W'.
 Qed.
 
 (** * non-vacuity *)
